@@ -1131,7 +1131,7 @@ Section PatchTop.
     { intros rp p1 Hin. apply In_isort in Hin. unfold patch_files_of in Hin. apply filter_In in Hin as [Hin Hext].
       simpl in Hext.
       assert (Hnd1 : NoDup (keys (ov_patches ov1))).
-      { destruct Hrun as (Hk & Hnd & Hbl & H). unfold rebase_overlay in H.
+      { pose proof Hrun as (Hk & Hnd & Hbl & H). unfold rebase_overlay in H.
         destruct (ov_exists ov); simpl in H; [|inversion H]. rewrite Hbl in H.
         destruct (negb (nilb (ov_files ov)) && negb (nilb (patch_files_of ov))); [inversion H|].
         rewrite Hk in H. destruct (negb (nilb (ov_files ov))); [inversion H|].
@@ -1156,8 +1156,7 @@ Section PatchTop.
         subst rp. rewrite Hl in Hlk1. inversion Hlk1; subst p1.
         pose proof (Hdang _ _ Hp Hn) as Hup.
         assert (Hss : strip_suffix dot_patch (rt ++ dot_patch) = Some rt).
-        { destruct Hrun as (_ & _ & _ & _).
-          destruct (rebase_patch_at _ _ _ _ _ _ _ _ Hrun Hp) as (a & art & t & n & cf & Hg & _).
+        { destruct (rebase_patch_at _ _ _ _ _ _ _ _ Hrun Hp) as (a & art & t & n & cf & Hg & _).
           apply patch_name in Hg as [[Hx _]|[Hx Hy]].
           - exfalso. unfold strip_suffix in Hx. rewrite rev_app_distr in Hx.
             assert (Hz : strip_prefix (rev dot_patch) (rev dot_patch ++ rev rt) = Some (rev rt)).
